@@ -147,6 +147,79 @@ def collect_corpus(ctx, props, tier=None, keep=None):
     return out
 
 
+_CORPUS = None
+
+
+def parse_corpus():
+    """[(radiotap mode, bytes)] from /verif/corpus/parse.txt (coverage-guided corpus built on the clean tree)"""
+    global _CORPUS
+    if _CORPUS is None:
+        _CORPUS = []
+        p = os.path.join(VERIF, "corpus", "parse.txt")
+        if os.path.exists(p):
+            for l in open(p):
+                if l.startswith("#") or not l.strip():
+                    continue
+                rt, h = l.split()
+                _CORPUS.append((int(rt), bytes.fromhex(h) if h != "-" else b""))
+    return _CORPUS
+
+
+INTERESTING8 = (0x00, 0x01, 0x02, 0x06, 0x07, 0x10, 0x20, 0x30, 0x3d, 0x7f, 0x80, 0xdd, 0xfe, 0xff)
+INTERESTING16 = (0, 1, 6, 7, 8, 255, 256, 1023, 1024, 1025, 0x3fff, 0x4000, 0x4001, 0x7fff, 0x8000, 0xffff)
+
+
+def mutate(b, rnd, pool):
+    """one structure-blind mutation (what a coverage-guided fuzzer applies), deterministic in rnd"""
+    b = bytearray(b)
+    k = rnd.randrange(9)
+    if not b:
+        return bytes(rnd.getrandbits(8) for _ in range(rnd.choice([1, 2, 8, 24])))
+    i = rnd.randrange(len(b))
+    if k == 0:
+        b[i] ^= 1 << rnd.randrange(8)
+    elif k == 1:
+        b[i] = rnd.choice(INTERESTING8)
+    elif k == 2:
+        b[i] = (b[i] + rnd.choice([1, -1])) & 0xff
+    elif k == 3 and len(b) >= 2:
+        j = rnd.randrange(len(b) - 1)
+        b[j:j + 2] = rnd.choice(INTERESTING16).to_bytes(2, rnd.choice(["little", "big"]))
+    elif k == 4:
+        del b[rnd.randrange(len(b)):]                      # truncate
+    elif k == 5:
+        del b[i:i + rnd.choice([1, 2, 4])]                 # drop a few octets
+    elif k == 6:
+        b[i:i] = bytes(rnd.choice(INTERESTING8) for _ in range(rnd.choice([1, 2, 4])))
+    elif k == 7 and pool:
+        o = rnd.choice(pool)[1]
+        if o:
+            j = rnd.randrange(len(o))
+            b[i:] = o[j:]                                  # splice with another corpus entry
+    else:
+        b += bytes(rnd.getrandbits(8) for _ in range(rnd.choice([1, 2, 4, 8])))
+    return bytes(b)
+
+
+def corpus_inputs(ctx, rnd, per_entry=None):
+    """corpus entries and `per_entry` mutants of each: [(rt, bytes)], de-duplicated"""
+    pool = parse_corpus()
+    n = per_entry if per_entry is not None else (3 if ctx.tier == "quick" else 24)
+    seen, out = set(), []
+    for rt, b in pool:
+        cands = [b]
+        for _ in range(n):
+            m = mutate(b, rnd, pool)
+            if rnd.random() < 0.3:
+                m = mutate(m, rnd, pool)
+            cands.append(m)
+        for c in cands:
+            if len(c) <= 1200 and (rt, c) not in seen:
+                seen.add((rt, c))
+                out.append((rt, c))
+    return out
+
+
 def load_known():
     p = os.path.join(VERIF, "known_findings.json")
     if os.path.exists(p):
